@@ -15,7 +15,7 @@ SCOPE = [("manager.collapse", 120, 50, {"tz": z}) for z in ZONES_QUICK] + \
 ORACLE_RULE = ("C18: the C03 scenarios on the real CandleManager in worker processes whose TZ is set to each zone (tzset), including streams placed "
                "on DST transition days of that zone, compared exactly with the zone-free independent resampler")
 ASSUMPTIONS = ["the tz database and datetime's own fold/gap rules are runtime and trusted", "naive timestamps at second resolution"]
-PARTIAL = "the Lean model has no zone parameter; that the code consults no zone is established by the tz correspondence (sampled), not by a theorem"
+PARTIAL = 'the Lean model has no zone parameter; that the code consults no zone is established by the tz correspondence (sampled), not by a theorem'
 TRUSTED_EXTRA = ["C18: zone independence of the code is tied by running the correspondence under several TZ settings (sampled)"]
 
 # (zone, a naive local second on/near a transition day of that zone)
